@@ -104,12 +104,44 @@ def many_outputs(rng):
     return dict(cls="OpA", classlevel=False, extractor={"kind": "none"}, body=c)
 
 
+TWINS = [
+    [pv.tup([pv.i(1), pv.i(2)]), pv.lst([pv.i(1), pv.i(2)])],
+    [{"t": "obj", "cls": "lib.pyvals.Pt", "v": [["x", pv.i(7)]]}, {"t": "obj", "cls": "lib.pyvals.Qt", "v": [["x", pv.i(7)]]}],
+    [pv.tup([]), pv.lst([])],
+    [{"t": "bytes", "v": [97]}, pv.s("a")],
+    [pv.dct([("k", pv.tup([pv.i(1)]))]), pv.dct([("k", pv.lst([pv.i(1)]))])],
+    [pv.i(1), pv.b(True), {"t": "float", "r": "1.0"}],
+    [pv.lst([pv.none()]), pv.tup([pv.none()])],
+]
+
+
+def type_twins(rng):
+    """One alias called with arguments that are equal up to their type; the input echoes its argument, so each call
+    has its own value and the trace is functional exactly if the keys tell the arguments apart."""
+    tw = rng.choice(TWINS)
+    order = list(tw)
+    rng.shuffle(order)
+    static = rng.random() < 0.5
+    by_kw = rng.random() < 0.3
+    cf = dict(alias=rng.choice(["get_user", "db.fetch", "load"]), resolver={"kind": "none"}, cap=None, static=static,
+              property=False, handler=rng.choice(["none", "wrap"]), prep_discards=False, run_missing=False,
+              vmiss={"kind": "none"}, fallbacks={"kind": "none"})
+    c = {"k": "ret", "e": {"var": 0}}
+    for i, v in reversed(list(enumerate(order))):
+        site = {"k": "in", "cfg": rd.clean(cf), "body": {"k": "ret", "e": {"var": 0}}, "next": c}
+        site["args"], site["kwargs"] = ([], [["a", {"lit": v}]]) if by_kw else ([{"lit": v}], [])
+        c = site
+    return dict(cls="OpA", classlevel=False, extractor={"kind": "none"}, body=c)
+
+
 def generate(rng, tier):
     cases = []
     n = 200 if tier == "quick" else 3000
     for i in range(n):
         if i % 25 == 7:
             op = many_outputs(rng)
+        elif i % 10 == 3:
+            op = type_twins(rng)
         else:
             op = rd.rand_opdef(rng, W, budget=rng.choice([5, 9, 14]), cls=rng.choice(["OpA", "OpB"]))
             table = {}
